@@ -161,13 +161,13 @@ Print Assumptions c07_gather_labels_perm_invariant.
 Print Assumptions c07_h2_for_library.
 
 (* ---- the executable spec written from the property text holds of the model (Proofs/C07Spec*.v), for all histories of
-   the covered sub-language (everything but local metrics, timers, OpDrop, OpCustom) outside the recorded mixed-kinds
+   all operations except OpCustom outside the recorded mixed-kinds
    class; inside that class everything but the family type holds *)
 Require Import PV.Model.World PV.Spec.SpecC07 PV.Proofs.C07SpecRegs.
 Require Export PV.Proofs.C07SpecPinned.
-Check c07_spec_model_partial : forall ops, dom07 ops = true ->
+Check c07_spec_of_model : forall ops, dom07 ops = true ->
   spec_c07 ops (run world0 ops) = true \/ known_mixed_kinds ops (run world0 ops) = true.
-Check c07_spec_strict_partial : forall ops, dom07 ops = true ->
+Check c07_spec_of_model_strict : forall ops, dom07 ops = true ->
   mixed_kinds_registered ops (run world0 ops) = false -> spec_c07 ops (run world0 ops) = true.
-Check c07_known_delimited_partial : forall ops, dom07 ops = true ->
+Check c07_known_class_delimited : forall ops, dom07 ops = true ->
   mixed_kinds_registered ops (run world0 ops) = true -> known_mixed_kinds ops (run world0 ops) = true.
